@@ -3,6 +3,8 @@
 pub(crate) mod shared;
 pub(crate) mod struct_api;
 pub(crate) mod trait_api;
+#[cfg(libcnb_rs_verif)]
+pub mod verif_hooks;
 
 pub use shared::DeleteLayerError;
 pub use shared::LayerError;
